@@ -133,7 +133,9 @@ func Specials() []string {
 		// inline HTML inside statement lists of every kind, with 3, 5 and 6 statements (lists with spare capacity)
 		"function f() { ?>x<?php $b; }", "{ $a; ?>x<?php $b; }", "if ($a) { ?>x<?php $b; $c; $d; }", "while ($a) { $b; $c; ?>x<?php }", "class A { function m() { ?>x<?php return 1; } }",
 		"try { ?>x<?php $b; } catch (E $e) { ?>y<?php $c; } finally { ?>z<?php $d; }", "$f = function() { ?>x<?php $b; };", "switch ($a) { case 1: ?>x<?php $b; break; default: $c; ?>y<?php }",
-		"foreach ($a as $b): ?>x<?php $c; endforeach;", "if ($a): ?>x<?php $b; else: ?>y<?php $c; endif;", "for (;;) { $a; ?>x<?php $b; ?>y<?php $c; }", "do { ?>x<?php $b; } while ($a);"}
+		"foreach ($a as $b): ?>x<?php $c; endforeach;", "if ($a): ?>x<?php $b; else: ?>y<?php $c; endif;", "for (;;) { $a; ?>x<?php $b; ?>y<?php $c; }", "do { ?>x<?php $b; } while ($a);",
+		// a short echo tag directly behind a close tag (no inline HTML between the two statements)
+		"$a ?>\n<?= $b ?>\n<?php ;", "if ($a) { ?><?= $c ?><?php }", "$t = 'x'; ?><?= $t ?><?= $u; ?>x<?php ;"}
 	tails := []string{"", "?>", "?>\n", "?>\r\n", "?>\r", "?>x", "?>\n\n", "?>\n<?php ;", " __halt_compiler();", " __halt_compiler();x<?php y \x00\xff",
 		" __halt_compiler ( ) ;x", " __halt_compiler()?>x", " __HALT_COMPILER();\n<?php 1", "\n", " ", "//c", "#c", "/*c*/", "// c ?>", "/** d */"}
 	var out []string
